@@ -5,7 +5,7 @@ from mc import statex
 from mc.props import _cellprop, _masterprop
 from mc.worlds import mastercfg, mastermon
 
-BUDGET = {'quick': 75, 'thorough': 700}
+BUDGET = {'quick': 240, 'thorough': 900}
 
 
 class Spec(_masterprop.MasterSpec):
